@@ -289,6 +289,15 @@ bool Directory::create(const String& dir)
     String basename = File::getBaseName(dir);
     if(basename == "." || basename == "..")
       return true;
+#ifndef _WIN32
+    int err = errno;
+#endif
+    if(Directory::exists(dir))
+      return true; // it was there already
+#ifndef _WIN32
+    errno = err;
+#endif
+    return false;
   }
   return true;
 }
